@@ -24,6 +24,7 @@ type Scenario struct {
 	OwnField string
 	Mult     uint64
 	Dest     bool // measured leg is a destination leg (C16 judges sender-side executions only)
+	OwnSig   bool // violations on this scenario carry the scenario name in their signature
 	Shards   uint32
 }
 
@@ -84,6 +85,31 @@ func Scenarios() []*Scenario {
 	}})
 	add(&Scenario{Name: "claim/same-async", Func: FClaim, OwnField: "ClaimDeveloperRewards", Mult: 1, Exec: func(s *Scn, g uint64) *node.Leg {
 		return s.U.N.Exec(node.Call{Func: FClaim, Caller: s.A, Recipient: s.KSame, Gas: g, CallType: vmcommon.AsynchronousCall, GasLocked: 5})
+	}})
+	ownedByContract := func(s *Scn, k []byte, owner []byte) {
+		s.U.W.Account(k).Owner = append([]byte{}, owner...)
+	}
+	add(&Scenario{Name: "claim/same-contract-owner", Func: FClaim, OwnField: "ClaimDeveloperRewards", Mult: 1, Exec: func(s *Scn, g uint64) *node.Leg {
+		ownedByContract(s, s.NSame, s.KSame)
+		return s.U.N.Exec(node.Call{Func: FClaim, Caller: s.KSame, Recipient: s.NSame, Gas: g})
+	}})
+	add(&Scenario{Name: "claim/same-contract-owner-async", Func: FClaim, OwnField: "ClaimDeveloperRewards", Mult: 1, OwnSig: true, Exec: func(s *Scn, g uint64) *node.Leg {
+		ownedByContract(s, s.NSame, s.KSame)
+		return s.U.N.Exec(node.Call{Func: FClaim, Caller: s.KSame, Recipient: s.NSame, Gas: g, CallType: vmcommon.AsynchronousCall})
+	}})
+	add(&Scenario{Name: "claim/self-owned", Func: FClaim, OwnField: "ClaimDeveloperRewards", Mult: 1, Exec: func(s *Scn, g uint64) *node.Leg {
+		ownedByContract(s, s.KSame, s.KSame)
+		return s.U.N.Exec(node.Call{Func: FClaim, Caller: s.KSame, Recipient: s.KSame, Gas: g})
+	}})
+	add(&Scenario{Name: "chgowner/same-contract-owner", Func: FChgOwner, OwnField: "ChangeOwnerAddress", Mult: 1, Exec: func(s *Scn, g uint64) *node.Leg {
+		ownedByContract(s, s.NSame, s.KSame)
+		return s.U.N.Exec(node.Call{Func: FChgOwner, Caller: s.KSame, Recipient: s.NSame, Args: [][]byte{s.A}, Gas: g})
+	}})
+	add(&Scenario{Name: "claim/cross-dst-contract-owner", Func: FClaim, Dest: true, Exec: func(s *Scn, g uint64) *node.Leg {
+		ownedByContract(s, s.KOther, s.KSame)
+		// a contract's call reaches another shard only through output transfers: deliver by hand
+		m := &node.Message{Func: FClaim, From: s.KSame, To: s.KOther, Gas: g, CallType: vmcommon.AsynchronousCall, Kind: node.MsgContinuation}
+		return s.U.N.DeliverMsg(m)
 	}})
 	add(&Scenario{Name: "claim/cross-snd", Func: FClaim, OwnField: "ClaimDeveloperRewards", Mult: 1, Exec: func(s *Scn, g uint64) *node.Leg {
 		return s.U.N.Exec(node.Call{Func: FClaim, Caller: s.A, Recipient: s.KOther, Gas: g})
@@ -150,6 +176,12 @@ func Scenarios() []*Scenario {
 	kv("shorter", preK, []byte("k"), []byte("new"))
 	kv("longer", preK, []byte("k"), []byte("a-much-longer-value-than-before"))
 	kv("delete", preK, []byte("k"), []byte{})
+	preLong := func(s *Scn) {
+		gen.Must(s.U.N.Exec(node.Call{Func: FSaveKV, Caller: s.A, Recipient: s.A, Args: [][]byte{[]byte("a-key-of-twenty-bytes"), make([]byte, 30), []byte("second-key"), []byte("0123456789")}, Gas: gen.BigGas}), "prep kv")
+	}
+	kv("shorter-long-key", preLong, []byte("a-key-of-twenty-bytes"), make([]byte, 25))
+	kv("shorter-by-one", preLong, []byte("second-key"), []byte("012345678"))
+	kv("grow-then-shrink", preLong, []byte("x"), []byte("grow"), []byte("a-key-of-twenty-bytes"), make([]byte, 29), []byte("second-key"), []byte("01234"))
 	kv("multi", preK, []byte("k"), []byte("old-value"), []byte("k2"), []byte("v2"), []byte("k"), []byte("xx"), []byte(""), []byte("empty-key"))
 
 	// ---- ESDTTransfer ----
@@ -169,6 +201,18 @@ func Scenarios() []*Scenario {
 		L = append(L, sc)
 	}
 	xf("transfer/same", false, "ESDTTransfer", func(s *Scn) node.Call { return s.Xfer("T", s.A, s.Same, "f") })
+	for _, ct := range []vmcommon.CallType{vmcommon.AsynchronousCall, vmcommon.AsynchronousCallBack, vmcommon.ESDTTransferAndExecute} {
+		ct := ct
+		nm := map[vmcommon.CallType]string{vmcommon.AsynchronousCall: "async", vmcommon.AsynchronousCallBack: "callback", vmcommon.ESDTTransferAndExecute: "transfer-exec"}[ct]
+		xf("transfer/same-"+nm, false, "ESDTTransfer", func(s *Scn) node.Call { c := s.Xfer("T", s.A, s.Same, "f"); c.CallType = ct; return c })
+		xf("transfer/cross-snd-"+nm, false, "ESDTTransfer", func(s *Scn) node.Call { c := s.Xfer("T", s.A, s.Other, "f"); c.CallType = ct; return c })
+		xf("transfer/same-contract-"+nm, false, "ESDTTransfer", func(s *Scn) node.Call {
+			gen.Must(s.U.Issue(s.KSame, s.F1, big.NewInt(500)), "fund contract")
+			c := s.Xfer("T", s.KSame, s.Same, "f")
+			c.CallType = ct
+			return c
+		})
+	}
 	xf("transfer/same-call", false, "ESDTTransfer", func(s *Scn) node.Call { return s.Xfer("T", s.A, s.KSame, "f", att...) })
 	xf("transfer/same-nonpayable-call", false, "ESDTTransfer", func(s *Scn) node.Call { return s.Xfer("T", s.A, s.NSame, "g", att...) })
 	xf("transfer/cross-snd", false, "ESDTTransfer", func(s *Scn) node.Call { return s.Xfer("T", s.A, s.Other, "f") })
@@ -300,6 +344,12 @@ func Scenarios() []*Scenario {
 		L = append(L, sc)
 	}
 	nft("nftxfer/same", false, false, func(s *Scn) node.Call { return s.Xfer("N", s.A, s.Same, "s") })
+	for _, ct := range []vmcommon.CallType{vmcommon.AsynchronousCall, vmcommon.AsynchronousCallBack, vmcommon.ESDTTransferAndExecute} {
+		ct := ct
+		nm := map[vmcommon.CallType]string{vmcommon.AsynchronousCall: "async", vmcommon.AsynchronousCallBack: "callback", vmcommon.ESDTTransferAndExecute: "transfer-exec"}[ct]
+		nft("nftxfer/same-"+nm, false, false, func(s *Scn) node.Call { c := s.Xfer("N", s.A, s.Same, "s"); c.CallType = ct; return c })
+		nft("nftxfer/cross-snd-"+nm, false, true, func(s *Scn) node.Call { c := s.Xfer("N", s.A, s.Other, "s"); c.CallType = ct; return c })
+	}
 	nft("nftxfer/same-call", false, false, func(s *Scn) node.Call { return s.Xfer("N", s.A, s.KSame, "n", att...) })
 	nft("nftxfer/cross-snd", false, true, func(s *Scn) node.Call { return s.Xfer("N", s.A, s.Other, "s") })
 	nft("nftxfer/cross-snd-call", false, true, func(s *Scn) node.Call { return s.Xfer("N", s.A, s.KOther, "S", att...) })
@@ -332,6 +382,12 @@ func Scenarios() []*Scenario {
 		L = append(L, sc)
 	}
 	multi("multi/same-f", false, false, "f", func(s *Scn) node.Call { return s.Xfer("M", s.A, s.Same, "f") })
+	for _, ct := range []vmcommon.CallType{vmcommon.AsynchronousCall, vmcommon.AsynchronousCallBack, vmcommon.ESDTTransferAndExecute} {
+		ct := ct
+		nm := map[vmcommon.CallType]string{vmcommon.AsynchronousCall: "async", vmcommon.AsynchronousCallBack: "callback", vmcommon.ESDTTransferAndExecute: "transfer-exec"}[ct]
+		multi("multi/same-fs-"+nm, false, false, "fs", func(s *Scn) node.Call { c := s.Xfer("M", s.A, s.Same, "fs"); c.CallType = ct; return c })
+		multi("multi/cross-snd-fs-"+nm, false, true, "fs", func(s *Scn) node.Call { c := s.Xfer("M", s.A, s.Other, "fs"); c.CallType = ct; return c })
+	}
 	multi("multi/same-fsn", false, false, "fsn", func(s *Scn) node.Call { return s.Xfer("M", s.A, s.Same, "fsn") })
 	multi("multi/same-call", false, false, "fs", func(s *Scn) node.Call { return s.Xfer("M", s.A, s.KSame, "fs", att...) })
 	multi("multi/cross-snd-f", false, true, "f", func(s *Scn) node.Call { return s.Xfer("M", s.A, s.Other, "f") })
